@@ -15,7 +15,7 @@ import vlib
 LEVEL = "model_checking"
 HARNESS = "c02_convert"
 INV = "RepValid LawsHold ChunksExist Emit"
-ALLOPS = ["conv", "clone", "transp", "tinplace", "permute", "layout", "graph", "copy", "format", "poke"]
+ALLOPS = ["conv", "clone", "transp", "transpinto", "tinplace", "permute", "layout", "graph", "copy", "format", "poke"]
 ALLTY = ["f64u64", "f64u32", "f32u32"]
 MAXPAR = 6
 
@@ -29,7 +29,7 @@ PAL = ["csr_pal", "cscr_pal", "banded_pal", "dense_pal", "bcsr_pal"]
 
 
 def configs(tier):
-    PATOPS = ["conv", "transp", "tinplace", "permute", "graph", "layout"]      # calls whose result depends on the sparsity pattern
+    PATOPS = ["conv", "transp", "transpinto", "tinplace", "permute", "graph", "layout"]      # calls whose result depends on the sparsity pattern
     c = [
         # every call once on every seed matrix (exhaustive over inputs)
         cfgd("single: csr shapes <= 3x2/2x3 + entry-free 3x5, all patterns, all permutation pairs", ["csr_small"], perm="all"),
@@ -41,17 +41,17 @@ def configs(tier):
         cfgd("single: palette seeds built as float/uint32 and double/uint32", PAL, seedtypes=["f32u32", "f64u32"]),
         cfgd("single: stored zeros and repeated values", ["csr_small", "banded_pal", "cscr_pal", "bcsr_pal"], pal=2, types=["f32u32"], ops=PATOPS + ["clone"]),
         # pairs: transpose twice, permutation then every permutation (incl. the inverse)
-        cfgd("double transpose", ["csr_small", "dense_small", "bcsr22", "bcsr23", "bcsr32"], ops=["transp", "tinplace"], depth=2, ns=3, types=[]),
+        cfgd("double transpose", ["csr_small", "dense_small", "bcsr22", "bcsr23", "bcsr32"], ops=["transp", "transpinto", "tinplace"], depth=2, ns=3, types=[]),
         cfgd("permute twice (all pairs of permutation pairs)", ["csr_perm", "bcsr_perm"], ops=["permute"], depth=2, ns=1, types=[], perm="all"),
         # aliasing: clone / layout, then poke, format, copy
-        cfgd("alias chains of 3 calls on 3 slots: clone, layout, poke, copy, dense transpose_inplace", ["mini"], ops=["clone", "poke", "copy", "layout", "tinplace"],
+        cfgd("alias chains of 3 calls on 3 slots: clone, layout, poke, copy, dense transpose_inplace", ["mini"], ops=["clone", "poke", "copy", "layout", "tinplace", "transpinto"],
              depth=3, ns=3, types=[]),
         cfgd("alias chains of 2 calls on 2 slots incl. type-converting clones and converts", PAL, ops=["clone", "conv", "poke", "copy", "format", "layout"],
              depth=2, ns=2, types=["f32u32"]),
         # general chains
         cfgd("chains of 2 calls, 2 slots, all calls", PAL, depth=2, ns=2, types=[]),
         cfgd("chains of 3 calls, 2 slots: convert, transpose, permute, weak/shallow... clone, poke", ["mini"], depth=3, ns=2, types=[],
-             ops=["conv", "transp", "tinplace", "permute", "clone", "poke"]),
+             ops=["conv", "transp", "transpinto", "tinplace", "permute", "clone", "poke"]),
     ]
     if tier == "thorough":
         c += [
@@ -63,7 +63,7 @@ def configs(tier):
             cfgd("single: csr 3x3 all patterns, stored zeros, all permutation pairs", ["csr_33"], pal=2, perm="all", types=["f32u32"],
                  ops=["conv", "transp", "permute", "graph"]),
             cfgd("alias chains of 3 calls on 3 slots, chain palette (csr, dense, bcsr)", ["csr_pal", "dense_pal", "bcsr_pal"],
-                 ops=["clone", "poke", "copy", "format", "layout", "tinplace"], depth=3, ns=3, types=[]),
+                 ops=["clone", "poke", "copy", "format", "layout", "tinplace", "transpinto"], depth=3, ns=3, types=[]),
             cfgd("alias chains of 4 calls on 2 slots", ["mini"], ops=["clone", "poke", "copy"], depth=4, ns=2, types=[]),
             cfgd("permute twice, all csr shapes <= 3x2/2x3", ["csr_small"], ops=["permute"], depth=2, ns=1, types=[], perm="all"),
             cfgd("chains of 3 calls, 2 slots, all calls", ["mini"], depth=3, ns=2, types=[]),
